@@ -54,22 +54,24 @@ Fixpoint picks {A} (l : list A) : list (A * list A) :=
   | [] => []
   | x :: t => (x, t) :: map (fun p => (fst p, x :: snd p)) (picks t)
   end.
+(* (a refused batch update may still have applied its departures - finding F19 - so "refused" means "changes nothing" only when
+   the model's state after it equals the state before it; the others branch like the accepted ones) *)
+Definition refused_noop (t : tbl) (x : mop * res) : bool :=
+  is_err (snd x) && (let '(r', t') := mstep t (fst x) in is_err r' && book_eqb t t').
 Fixpoint lin_dfs (fuel : nat) (t : tbl) (rem : list (mop * res)) (post : tbl) : bool :=
   match fuel with
   | O => true
   | S f =>
-      let rem' := filter (fun x => negb (is_err (snd x) && is_err (fst (mstep t (fst x))))) rem in
+      let rem' := filter (fun x => negb (refused_noop t x)) rem in
       if (length rem' <? length rem)%nat then lin_dfs f t rem' post
       else match rem with
            | [] => book_eqb t post
-           | _ => existsb (fun p => match snd (fst p) with
-                                    | Err => false
-                                    | Ok => let '(r', t') := mstep t (fst (fst p)) in
-                                            if is_err r' then false else lin_dfs f t' (snd p) post
-                                    end) (picks rem)
+           | _ => existsb (fun p => let '(r', t') := mstep t (fst (fst p)) in
+                                    if res_eqb r' (snd (fst p)) then lin_dfs f t' (snd p) post else false) (picks rem)
            end
   end.
-Definition accepted_n (l : list (mop * res)) : nat := length (filter (fun x => negb (is_err (snd x))) l).
+Definition is_half_update (o : mop) : bool := match o with MUpdate (_ :: _) _ (_ :: _) => true | _ => false end.
+Definition accepted_n (l : list (mop * res)) : nat := length (filter (fun x => negb (is_err (snd x)) || is_half_update (fst x)) l).
 
 Definition joins_of (o : mop) : list nat :=
   match o with MReserve j _ => [jp_id j] | MUpdate js _ _ => map jp_id js | _ => [] end.
